@@ -124,12 +124,24 @@ def check_roundtrips(m):
         return 'roundtrip/' + key, 'from_str(str(m)) raised %r for %r' % (e, m)
     if not (b == m) or type(b.time) is not type(m.time):
         return 'roundtrip/from_str/' + t, 'from_str(%r) = %r' % (s, b)
+    # what a parse returned is the caller's: it is overwritten, and the same text parsed again
+    core.scribble(b)
+    try:
+        b2 = mido.parse_string(s)
+        b3 = mido.Message.from_str(s)
+    except Exception as e:
+        return 'roundtrip/from_str-second/' + t, 'second parse of %r raised %r' % (s, e)
+    if not (b2 == m) or not (b3 == m) or b2 is b3 or b2 is b:
+        return 'roundtrip/from_str-second/' + t, 'second parse of %r gave %r / %r' % (s, b2, b3)
+    core.scribble([b2, b3])
     try:
         b = mido.Message.from_dict(m.dict())
     except Exception as e:
         return 'roundtrip/from_dict/' + t, 'from_dict(%r) raised %r' % (m.dict(), e)
     if not (b == m):
         return 'roundtrip/from_dict/' + t, 'from_dict(%r) = %r' % (m.dict(), b)
+    core.scribble(b)
+    core.scribble(m.dict())
     try:
         b = eval_repr(m)
     except Exception as e:
@@ -467,3 +479,4 @@ CHECK_DEADLOCK FALSE
     # re-entrancy: two threads inside these functions at once, a switch possible before every statement
     from .. import conc
     conc.run_scenarios(ctx, 'C14', 2 if ctx.tier == 'thorough' else 1)
+    conc.first_use(ctx, 'C14', 120 if ctx.tier == 'thorough' else 40)
